@@ -3,6 +3,7 @@ CONSTANTS
   Lose = 0
   Swap = 0
   Dup = 0
+  InLoop = FALSE
 PROPERTY EventuallyIdentified
 INVARIANT CompletesAtMostOnce
 INVARIANT CompletionMeansIdentified
